@@ -188,3 +188,20 @@ std::istream& getline(std::istream& is, std::string& str, char delim) {
    return is;
 }
 }
+
+// ---- strtok(): [C] 7.24.5.8, with its hidden static scan position (so that a use of strtok in library code shows up as what
+// it is in a multi-threaded program: writes to process-wide static storage)
+extern "C" {
+static char* vs_strtok_position;
+char* strtok(char* s, const char* delim) noexcept {
+   if (s == nullptr) s = vs_strtok_position;
+   if (s == nullptr) return nullptr;
+   auto is_delim = [delim](char c) { for (const char* d = delim; *d; ++d) if (*d == c) return true; return false; };
+   while (*s && is_delim(*s)) ++s;
+   if (!*s) { vs_strtok_position = nullptr; return nullptr; }
+   char* tok = s;
+   while (*s && !is_delim(*s)) ++s;
+   if (*s) { *s = 0; vs_strtok_position = s + 1; } else vs_strtok_position = nullptr;
+   return tok;
+}
+}
